@@ -48,7 +48,7 @@ def describe(tier):
 
 
 def blocks(tier):
-    out = [("residue", {"i": i}) for i in range(len(RESIDUE_DATA))] + [("wide1", {"E": E}) for E in WIDE1] + [("float32", {})]
+    out = [("residue", {"i": i}) for i in range(len(RESIDUE_DATA))] + [("wide1", {"E": E}) for E in WIDE1] + [("float32", {}), ("negative", {})]
     for si, cfg in enumerate(SETS[tier]):
         for N in cfg["Ns"]:
             if cfg["D"] == 0:
@@ -237,6 +237,39 @@ def check_wide1(E, acc, only_call=None, only_data=None):
             acc.case(("wide1", E, data, agg, ignore, ws, fs), nontrivial=True, outcome=("wide1", agg, ignore), sample=lambda: base)
 
 
+def check_negative(acc, only=None):
+    """Negative weights are legal numbers: a cell whose weights total a NEGATIVE value is not missing (only an exact zero total makes a mean
+    missing); every data vector of (D=1, N=3) and (D=2, N=2) x every weight pattern over {positive, negative, zero} x every aggregate."""
+    from catii.ccubes import ccube
+    from catii.xcubes import xcube
+
+    for D, N in ((1, 3), (2, 2)):
+        E = 2
+        none = tuple([False] * N)
+        fss = [None, (0, "pow2", none, "nan"), (2, "mixed", tuple([False] * (2 * N)), "pair-huge"), (0, "pow2", tuple(r == 0 for r in range(N)), "nan")]
+        wss = [("array", s, "nan") for s in itertools.product("PNZ", repeat=N) if "N" in s] + [("scalar", -2.0)]
+        for datas in itertools.product(itertools.product(range(E), repeat=N), repeat=D):
+            denses = [numpy.array(t, dtype=numpy.int64) for t in datas]
+            shape = (E + 1,) * D
+            cells = M.cell_rows(denses, shape, N)
+            dims = {cs: [M.build_index(d, c) for d, c in zip(denses, cs)] for cs in itertools.product((0, 2), repeat=D)}
+            for ws in wss:
+                for fs in fss:
+                    for agg in (("count",) if fs is None else ("sum", "mean", "valid_count")):
+                        for ignore in (False, True):
+                            call = (agg, ignore, ws, fs)
+                            base = {"negative": True, "data": [list(t) for t in datas], "E": E, "agg": agg, "ignore": ignore, "weights": ws, "fact": fs}
+                            if only is not None and (base["data"], agg, ignore, list(ws[1]) if ws[0] == "array" else ws[1]) != only:
+                                continue
+                            f_arg, x, valid, K, w_arg, w, wok = c03.realise(N, ws, fs)
+                            grand = Q.grand_total(x, w, N, K)
+                            evals, emiss = Q.oracle(agg, cells, shape, N, K, x, valid, w, wok, ignore)
+                            check_formats("xcube", lambda: xcube(denses, interacting_shape=shape), call, N, evals, emiss, grand, acc, dict(base, cube="xcube"))
+                            for cs, dd in dims.items():
+                                check_formats("ccube", lambda: ccube(dd, interacting_shape=shape), call, N, evals, emiss, grand, acc, dict(base, cube="ccube", commons=list(cs)))
+                            acc.case(("neg", tuple(datas), agg, ignore, ws, fs), nontrivial=True, outcome=("neg", agg, ignore, int(emiss.sum())), sample=lambda: base)
+
+
 def check_single_precision(acc, only=None):
     """Every data vector of (D=1, N=3) and (D=2, N=2) x a short call menu with the facts and weights in float32."""
     from catii.ccubes import ccube
@@ -273,6 +306,9 @@ def run_block(family, p, acc):
     if family == "float32":
         check_single_precision(acc)
         return
+    if family == "negative":
+        check_negative(acc)
+        return
     if family == "residue":
         check_residue(p["i"], acc)
         return
@@ -295,6 +331,9 @@ def replay(case, site=None):
     cfg = dict(wl=0, Ks=[0], fl=1, forms=["nan"], vals=["pow2"], wforms=True)
     if "wide1" in case:
         check_wide1(case["wide1"], acc, only_call=call, only_data=case["data"])
+    elif case.get("negative"):
+        ws = case["weights"]
+        check_negative(acc, only=(case["data"], case["agg"], case["ignore"], list(ws[1]) if ws[0] == "array" else ws[1]))
     elif case.get("float32"):
         check_single_precision(acc, only=(case["data"], case["agg"], case["ignore"]))
     elif "residue" in case:
